@@ -56,6 +56,9 @@ fm_peek_n = wrap('peek_n', it.peek_n, ['C11'])
 fm_advance_to = wrap('advance_to', it.advance_to, ['C10'])
 fm_next = wrap('next', it.next_match, ['C01', 'C07'], impl="Iterator for FindMatches<'_>", ret='', sig_replace=[('Option<Self::Item>', '(res: Option<Match>)')])
 fm_position = wrap('position', it.position, ['C09'], impl="PositionProvider for FindMatches<'_>")
+fm_set_mode = wrap('set_mode', it.fmi_set_mode, ['C06'], impl="ScannerModeSwitcher for FindMatches<'_>")
+fm_current_mode = wrap('current_mode', it.fmi_current_mode, ['C06'], impl="ScannerModeSwitcher for FindMatches<'_>")
+fm_mode_name = wrap('mode_name', it.fmi_mode_name, ['C06'], impl="ScannerModeSwitcher for FindMatches<'_>")
 fm_pp_set_offset = None  # PositionProvider::set_offset has the same name as the inherent method: not extracted twice
 
 with_positions_next = Fn(
@@ -174,7 +177,7 @@ pub proof fn lemma_complete_step(inp: Seq<char>, lo: Seq<usize>, k: int)
 ''', label='lemmas for WithPositions::next')
 
 CONTRACTS = [as_contract(f, 'contract proved in unit U-iter') for f in
-             (it.new, it.set_offset, it.with_offset, it.next_match, it.peek_n, it.advance_to, it.offset_fn, it.position)]
+             (it.new, it.set_offset, it.with_offset, it.next_match, it.peek_n, it.advance_to, it.offset_fn, it.position, it.fmi_set_mode, it.fmi_current_mode, it.fmi_mode_name)]
 # ScannerImpl::clone: derived
 CLONE = Raw('''
 // TRUSTED: #[derive(Clone)] on ScannerImpl copies every field (rule E4)
@@ -203,7 +206,7 @@ UNIT = dict(
         Struct(F_WP, 'WithPositions', derive=[]),
         Struct(F_SC, 'Scanner', derive=[]),
         API_LEMMAS,
-        fm_new, fm_with_offset, fm_set_offset, fm_offset, fm_next_match, fm_peek_n, fm_advance_to, fm_next, fm_position,
+        fm_new, fm_with_offset, fm_set_offset, fm_offset, fm_next_match, fm_peek_n, fm_advance_to, fm_next, fm_position, fm_set_mode, fm_current_mode, fm_mode_name,
         with_positions_next,
         find_iter,
     ],
